@@ -12,7 +12,8 @@ CONSTANTS MaxArity,      \* parameter lists of arity 0..MaxArity
           Len3Kinds,     \* the callee kinds enumerated up to Len3 at arity 3
           UnkLen2, UnkLen3,  \* cap on the length of label sequences that contain the unknown name (arity 2, arity 3)
           Defaults3,     \* the default subsets enumerated at arity 3 (all 8 in the thorough tier)
-          CallArity      \* sub-family "defaults that are calls": arities 1..CallArity on free and member functions
+          CallArity      \* sub-families "defaults that are calls" (free and member functions) and "defaults that are tuples, on
+               \* parameters of tuple type" (functions, structs, variants): arities 1..CallArity
 VARIABLE c
 MaxLen(k, n) == IF n = 3 THEN (IF k \in Len3Kinds THEN Len3 ELSE Len3x) ELSE n + 1
 UnkLen(n) == IF n = 3 THEN UnkLen3 ELSE IF n = 2 THEN UnkLen2 ELSE n + 1
@@ -21,6 +22,7 @@ SpaceOf(k, n, dk, Ds) == {[kind |-> k, n |-> n, D |-> D, dk |-> dk, labels |-> l
 DefaultSets(n) == IF n = 3 THEN Defaults3 ELSE SUBSET (1..n)
 Space == UNION {UNION {SpaceOf(k, n, "lit", DefaultSets(n)) : n \in MinArity(k)..MaxArity} : k \in Kinds}
          \cup UNION {UNION {SpaceOf(k, n, "call", (SUBSET (1..n)) \ {{}}) : n \in 1..CallArity} : k \in {"free", "member"}}
+         \cup UNION {UNION {SpaceOf(k, n, "tup", (SUBSET (1..n)) \ {{}}) : n \in 1..CallArity} : k \in {"free", "member", "struct", "variant"}}
 ShardNo(s) == CHOOSE i \in 0..63 : ToString(i) = s
 Code(s) == Len(s.kind) + s.n + 2 * Cardinality(s.D) + Len(s.labels) + Cardinality({k \in 1..Len(s.labels) : s.labels[k] = ""})
 Init == c \in {s \in Space : Code(s) % ShardNo(IOEnv.NSHARDS) = ShardNo(IOEnv.SHARD)}
